@@ -672,6 +672,7 @@ def r07_8_linear(chk, sht):
 
 def r07_8(chk, sht):
     r07_8_linear(chk, sht)
+    r07_8_sampling(chk, sht)
     """A second transform must not overwrite the result of the first (linearity, round trips and Parseval all compare two results)."""
     from ..effects import alias_path
     for fn in sht.methods("SHT"):
@@ -687,6 +688,37 @@ def r07_8(chk, sht):
         chk.ob("R07.8", SHT, f"SHT.{fn.name}", "the returned array is not an instance attribute (work array) or a view of one", not bad,
                node=bad[0][0].node if bad else fn, fingerprint="fresh", expected="a newly allocated result per call",
                found=f"returns self.{bad[0][1]}: {str(bad[0][0].value)[:100]}" if bad else None)
+
+
+def r07_8_sampling(chk, sht):
+    """compute_on_grid is the sampler in front of analysis: a complex-valued function must arrive as complex samples (analysis
+    chooses the real or the complex transform by the dtype), so the samples must not be copied into a buffer of a fixed real dtype."""
+    q = "SHT.compute_on_grid"
+    if q not in sht.funcs:
+        return
+    ev = sht.ev(q)
+    chk.saw(SHT, q)
+    fpar = ev.param_names[1]
+    ret = ev.returns[-1].value
+    a = ret.as_atom()
+    while a and a[0] == "call" and call_name(a) in ("numpy.asarray", "numpy.ascontiguousarray", "numpy.asanyarray", "numpy.array") and len(a[2]) == 1 \
+            and not (len(a) > 3 and a[3] and any(k == "dtype" for k, _ in a[3])):
+        a = a[2][0].as_atom()
+    direct = bool(a and a[0] == "call" and isinstance(a[1], P) and a[1].key() == fpar)
+    fixed = None
+    if not direct and a and a[0] == "obj":
+        init = a[3].as_atom()
+        if init and call_name(init) in ("numpy.empty", "numpy.zeros", "numpy.ones", "numpy.empty_like", "numpy.zeros_like"):
+            kw = dict(init[3]) if len(init) > 3 and init[3] else {}
+            dt = kw.get("dtype")
+            dtk = dt.key() if dt is not None else "float64 (default)"
+            if "complex" not in dtk and ".dtype" not in dtk:
+                fixed = f"{call_name(init)}(..., dtype={dtk})"
+    if not direct and fixed is None:
+        raise AnalysisError(f"{SHT}:{q}: the returned samples are neither func(*grid) nor a recognised buffer: {str(ret)[:120]}")
+    chk.ob("R07.8", SHT, q, "the samples handed to analysis keep the dtype the function returned (a complex-valued function is not written "
+           "into a buffer of a fixed real dtype, which drops the imaginary part and selects the real transform)", direct, node=ev.returns[-1].node,
+           fingerprint="sampling-dtype", expected=f"{fpar}(*self.grid)", found=fixed or str(ret)[:100])
 
 
 # ------------------------------------------------------------------------------------------------ R07.9
